@@ -38,6 +38,12 @@ MCShapes == {
   \* an aggregate (flattened) field with a default next to regular ones: unset, it is not emitted
   Sh("S10", << Fd("a", "normal", FALSE, FALSE, "base"), Fd("p", "flat", FALSE, FALSE, "base"),
                Fd("c", "normal", TRUE, FALSE, "base") >>, TRUE, FALSE, FALSE),
+  \* decorated base, UNDECORATED @dataclass(init=False) subclass whose hand-written __init__ assigns its own field c
+  \* BEFORE calling the tracked __init__ of the base: c is assigned at every construction (it is always set, as a
+  \* default_as_set field is), the base's fields are set when passed
+  [id |-> "S11", fields |-> << Fd("a", "normal", FALSE, FALSE, "base"), Fd("b", "normal", FALSE, FALSE, "base"),
+                               Fd("c", "normal", TRUE, FALSE, "sub") >>,
+   deco |-> [base |-> TRUE, sub |-> FALSE], hasSub |-> TRUE, mixin |-> FALSE, generic |-> FALSE, custominit |-> TRUE],
   ShGeneric("S9", << Fd("a", "normal", FALSE, FALSE, "base"), Fd("g", "normal", FALSE, FALSE, "base"),
                      Fd("c", "normal", TRUE, FALSE, "base") >>) }
 
